@@ -85,6 +85,22 @@ def run(F, R):
             continue
         got = built(F, ends[0])
         R.check(bool(got) and got <= want, "R16.1", "S⊆A:%s::end" % ty, ends[0].where(), "constructs %s" % sorted(got), "%s::end constructs %s, expected %s" % (ty, sorted(got), sorted(want)))
+    R.rule("R16.2", "enum payload presence mirrors the encoding: the single-key object form always carries a payload (Some(value)) and only the bare "
+                    "string / enum forms carry none — the serializer writes newtype/tuple/struct variants as {variant: payload} even when the payload is null")
+    from common import enum_arm_regions
+    regs = enum_arm_regions(de_enum, r"async_graphql_value::ConstValue$")
+    for sbb, named in regs[:1]:
+        objb = named.get("Object", set())
+        nones = [a for a in find_aggs(de_enum, r"core::option::Option$") if a[1][3] == "None" and a[0] in objb]
+        somes = [a for a in find_aggs(de_enum, r"core::option::Option$") if a[1][3] == "Some" and a[0] in objb]
+        R.check(bool(somes) and not nones, "R16.2", "deserialize_enum:object-form-always-has-payload", de_enum.where(), "payload = Some(value) in the object arm",
+                "the object form of an enum can be read with payload None: `{\"Variant\": null}` (a newtype variant holding a null payload, e.g. Option::None) "
+                "is taken for a unit variant and fails to deserialize")
+        for v in ("String", "Enum"):
+            if v in named:
+                sb = named[v]
+                ss = [a for a in find_aggs(de_enum, r"core::option::Option$") if a[1][3] == "Some" and a[0] in sb]
+                R.check(not ss, "R16.2", "deserialize_enum:%s-form-has-no-payload" % v, de_enum.where(), "payload None", "the bare %s form carries a payload" % v)
     # VariantAccess side
     va = {b.name: b for b in F.bodies.values() if b.kind == "fn" and b.impl_self and b.impl_self.endswith("deserializer::VariantDeserializer")}
     for name, need in (("tuple_variant", "List"), ("struct_variant", "Object")):
